@@ -8,6 +8,7 @@ polling a task does, the loop cannot return with work left in its queues.
 -/
 import CruxVerif.Lemmas.RtCore
 import CruxVerif.Lemmas.RtTask
+import CruxVerif.Lemmas.QHosts
 namespace Props.C01
 open M.Rt
 
@@ -45,14 +46,64 @@ theorem C01_nothing_left_in_hosted_command (settle : Nat → World → Option Wo
     (w'.cmd cid).effects = [] ∧ (w'.cmd cid).events = [] ∧ (w'.cmd cid).tasks.isEmpty = true :=
   (isDoneNow_iff w' cid).mp (pollNextF_finished settle wk cid w w' h)
 
-/-- STATED, NOT PROVED (kept visible, counted as `stated_not_proved` in the evidence): at every return of a core call,
-    every command hosted at any depth is settled and has empty effect/event queues (the nested instance of
-    `C01_command_settled`, which needs the frame argument that polling one command leaves the queues of the commands
-    it does not host untouched). Covered by the correspondence check only (`q…` counters and the no-op probe). -/
+/-- **NO LOST WAKE-UP, NOTHING LEFT BEHIND — flat apps** (`…_flat`: apps whose `update` returns commands WITHOUT combinators —
+    any task program with `spawn`, `join!`, `select!`, streams, hand-offs, join handles, abort handles, self-aborts, builder
+    chains — plus host-free legacy capability tasks; the full statement for nested commands is `C01_nested_quiescent_goal`).
+    After EVERY history of events, resolutions, drops, aborts and probes, EVERY further call into the Core returns only
+    when the executor's queues are empty AND no live, un-aborted command has a task on its ready queue, a spawned task
+    waiting to start, or an effect or event still queued.
+    Scheduling invariant `QI` (Lemmas/QDefs, QSteps, QPoll, QExec, QCore, QRun, QHosts ≈ 1900 lines): every live command is
+    either ARMED (it holds the root waker of the executor task hosting it) or SCHEDULED (that executor task is on the ready
+    queue, or the command is still on the spawn queue), and a command with work is scheduled. Every wake — a resolved or
+    dropped request, a finished task waking a join handle, a self-wake, an abort — pushes the task id and TAKES the command's
+    waker, which queues the executor task (`wake_qs`); the step relation `QS` is carried through one poll by a single `grind`
+    call over `pollBlock`, then through run_task / run_until_settled / poll_next, the CommandSpawner loop, run_all, `update`
+    + spawn, the event loop and the shell's operations. -/
+theorem core_call_quiescent_flat (prog : M.Hosts.Prog) (hp : progFlat prog) (canon : Bool) (acts : List M.Hosts.Action)
+    (os : List M.Hosts.Obs) (h : M.Hosts.CoreHost) (hr : M.Hosts.runCore prog canon acts = some (os, h))
+    (a : M.Hosts.Action) (o : M.Hosts.Obs) (h' : M.Hosts.CoreHost) (hs : h.step a = some (o, h')) :
+    h'.k.w.execSpawn = [] ∧ h'.k.w.execReady = [] ∧
+    ∀ c, c < h'.k.w.cmds.length → (h'.k.w.cmd c).alive = true → h'.k.w.aborted c = false →
+      (h'.k.w.cmd c).ready = [] ∧ (h'.k.w.cmd c).spawnQ = [] ∧ (h'.k.w.cmd c).effects = [] ∧ (h'.k.w.cmd c).events = [] := by
+  have q := M.Hosts.CoreHost.step_q h a o h' hs (M.Hosts.runCore_quiescent prog hp canon acts os h hr)
+  exact ⟨q.2.1, q.2.2, fun c hc hal hna => q.1.quiescent q.2.1 q.2.2 c hc hal hna⟩
+
+/-- the same for `Core::process` / `Core::process_event` themselves, from any state satisfying the invariant -/
+theorem process_quiescent_flat (ev : Ev) (k k' : Core) (effs : List Eff) (hk : QI k none)
+    (h : processEvent ev k = some (effs, k')) :
+    QI k' none ∧ ∀ c, c < k'.w.cmds.length → (k'.w.cmd c).alive = true → k'.w.aborted c = false →
+      (k'.w.cmd c).ready = [] ∧ (k'.w.cmd c).spawnQ = [] ∧ (k'.w.cmd c).effects = [] ∧ (k'.w.cmd c).events = [] := by
+  have q := processEvent_q ev k effs k' h hk
+  exact ⟨q.1, fun c hc hal hna => q.1.quiescent q.2.1 q.2.2 c hc hal hna⟩
+
+/-- the mechanism: a wake of ANY waker, in ANY world, at ANY fuel — the task id is pushed onto its command's ready queue
+    only together with TAKING that command's waker, and a taken root waker has queued its executor task -/
+theorem wake_takes_and_queues (me : Option Nat) (w : World) (wk : Waker) :
+    (∀ c, some c ≠ me → ((w.wake wk).cmd c).ready = (w.cmd c).ready ∨ ((w.wake wk).cmd c).waker = none) ∧
+    (∀ c, ((w.wake wk).cmd c).waker = (w.cmd c).waker ∨
+      (((w.wake wk).cmd c).waker = none ∧ ∀ etid, (w.cmd c).waker = some (.root etid) → etid ∈ (w.wake wk).execReady)) :=
+  let q := World_wake_qs me w wk
+  ⟨q.work, q.waker⟩
+
+/-- non-vacuity: a flat app (a task program with a spawned task and a join handle, an abortable stream, a legacy task) -/
+example : progFlat [(1, .task [.spawn 1 [.req 1 1 (.lit 0)], .await 1, .emit 2 (.lit 1)], []),
+    (2, .abortable 0 (.stream 3 (.lit 0) 4), [[.req 1 5 (.lit 0)]])] := by
+  intro p hp
+  simp only [List.mem_cons, List.not_mem_nil, or_false] at hp
+  rcases hp with rfl | rfl
+  · exact ⟨rfl, by intro is his; cases his⟩
+  · exact ⟨rfl, by intro is his; simp only [List.mem_singleton] at his; subst his; rfl⟩
+
+/-- STATED, NOT PROVED (kept visible, counted as `stated_not_proved` in the evidence): the same for apps whose commands are
+    nested by `then / and / all / map_*`. There a command's host is a task of another command, the chain of wakers has
+    arbitrary depth (`wake_reaches_root`, C05), and a command that has not been started yet (the second operand of `then`)
+    legitimately has its first task ready — so the statement is about commands whose host has polled them. Covered by the
+    correspondence check (`q…` counters and the no-op probe after every call). -/
 def C01_nested_quiescent_goal : Prop :=
-  ∀ (k k' : Core) (effs : List Eff), process k = some (effs, k') →
-    ∀ cid, (k'.w.cmd cid).alive = true → k'.w.aborted cid = false →
-      (k'.w.cmd cid).ready = [] ∧ (k'.w.cmd cid).spawnQ = [] ∧ (k'.w.cmd cid).effects = [] ∧ (k'.w.cmd cid).events = []
+  ∀ (prog : M.Hosts.Prog) (canon : Bool) (acts : List M.Hosts.Action) (os : List M.Hosts.Obs) (h : M.Hosts.CoreHost),
+    M.Hosts.runCore prog canon acts = some (os, h) → acts ≠ [] →
+    ∀ cid, (h.k.w.cmd cid).alive = true → h.k.w.aborted cid = false → (h.k.w.cmd cid).waker ≠ none →
+      (h.k.w.cmd cid).ready = [] ∧ (h.k.w.cmd cid).spawnQ = [] ∧ (h.k.w.cmd cid).effects = [] ∧ (h.k.w.cmd cid).events = []
 
 /-! non-vacuity: a call that returns, on a concrete app (evaluated by the kernel) -/
 example : ∃ effs k', processEvent ⟨1, 0⟩ { prog := [(1, .notify 7 (.lit 3), [])] } = some (effs, k') ∧ effs.length = 1 := by
